@@ -34,6 +34,14 @@ CHECKS = {
              '(only ProphyError; result encodes; decode(encode()) fixpoint; time bound) on the real code.',
         note='Full induction over schemas is the stated target. Known finding D21 (greedy tail not ending aligned) is matched by signature. Wall time / memory are runtime facts measured by the harness, not theorems.',
         technique='Lean 4 proof over an executable model + differential correspondence on malformed inputs', ref='5/C06'),
+    'C15': dict(
+        text='Lean 4 theorems about the model of prophyc/model.py topological_sort (rotation algorithm with known/available sets, '
+             'find_first_dep, insert/pop, rotation bound): for EVERY node list whatever it returns is a permutation of the input and is '
+             'dependency-ordered, and it always returns or reports a cycle. The model (including dependencies() extraction and '
+             'enumerator ownership) is tied to the code by comparing its order with the nodes returned by the real prophyc on random '
+             'DAGs x permutations; the property itself (permutation, order, import of generated Python, equal layouts) is evaluated on the real tool.',
+        note='Success on every acyclic input (the rotation bound never rejects a DAG) is argued in DESIGN.md and exercised by the run; its Lean proof is listed as target.',
+        technique='Lean 4 proof (induction over the rotation loop) + differential correspondence with prophyc.main()', ref='5/C15'),
     'C19': dict(
         text='Lean 4 theorems: for every chunk list (hence every message of every schema) the big-endian rendering is the little-endian '
              'one with each scalar reversed in place, same length, every padding byte zero. The real Python LE/BE outputs are checked '
